@@ -6,6 +6,8 @@ the object has; reference model for the estimate range = intersection.
 """
 import math
 
+import numpy as np
+
 from vmon.core.obs import observe, is_plain_number
 from vmon.core import libs
 from vmon.gen import tables, libfiles
@@ -90,6 +92,32 @@ def judge(ctx, case, label, obj, has, rng_range, cp_free_excluders, rng,
                           % (label, name, why), case,
                           {'T': T, 'range': [lo, hi],
                            'value': repr(o['ok'])})
+    # the same question asked with other temperature types: an array that
+    # contains an outside temperature (documented: "any temperature in array
+    # T"), a 0-d array, a numpy scalar, a Python int
+    mid = 0.5 * (lo + hi)
+    for T in outside[:3] + outside[-3:]:
+        forms = [('array [inside, outside]', np.array([mid, T])),
+                 ('array [outside]', np.array([T])),
+                 ('0-d array', np.array(T)),
+                 ('numpy scalar', np.float64(T))]
+        if float(T) == int(T):
+            forms.append(('int', int(T)))
+        for name in PROPS:
+            so = observe(getattr(obj, name), T)
+            if 'exc' not in so:
+                continue          # judged above
+            for fl, TT in forms:
+                o = observe(getattr(obj, name), TT)
+                ctx.evals()
+                if 'exc' in o:
+                    ctx.klass('outside (%s): raised' % fl)
+                    continue
+                ok = False
+                ctx.violation('%s.%s returned a value for an outside '
+                              'temperature given as %s' % (label, name, fl),
+                              case, {'T': T, 'range': [lo, hi],
+                                     'value': repr(o['ok'])[:120]})
     for T in inside:
         for name in PROPS:
             if not all(n in has for n in NEEDS[name]):
